@@ -50,8 +50,10 @@ MANIFEST_ENTRY = {
         "x target present x target account x CSRF token present/valid: 300 credential vectors enumerated, "
         "lifted to all 4800 requests by a monotonicity lemma), that a documented caller is admitted, that every "
         "in-body CSRF check precedes the first write, and that JWT-protected routes ignore the session identity "
-        "(jwt_routes_ignore_session); guard_chain_sound ties the chain to Flask's as_view/decorator nesting order. CSRF: for every MAC function that is injective and never "
-        "empty, every history of checks without a restart accepts a token at most once; an accepted token "
+        "(jwt_routes_ignore_session); guard_chain_sound ties the chain to Flask's as_view/decorator nesting order. CSRF: the state machine carries the clock and every replay record its expiry; for every MAC "
+        "function that is injective and never empty, every history of checks, clock jumps and other users' requests "
+        "without a prune accepts a token at most once (records_survive_run: nothing but a prune removes a record; "
+        "prune_only_at_server_start / no_handler_prunes over the generated list of prune_database call sites); an accepted token "
         "is character for character an issued one, for the same service and cookie; the negative result "
         "csrf_reuse_after_prune (tokens carry no timestamp, consumed tokens are forgotten at server start) "
         "is proved and kept as an open finding. Tied to the code each run by: table vs app.url_map/wrapper "
@@ -90,8 +92,12 @@ ASSUMPTIONS = [
     "session of one account and the token of another is judged by the union of what the two may do; the guest "
     "account is nobody's own account",
     "a lesser role presents only tokens it can legitimately harvest (it never holds a valid 'upload' token)",
-    "csrf_at_most_once is stated for histories without a server restart (prune); across a restart the "
-    "negation is proved (csrf_reuse_after_prune) and listed as open finding D14b",
+    "csrf_at_most_once is stated for histories without a prune step (one server run: checks, clock jumps, other "
+    "requests); across a restart the negation is proved (csrf_reuse_after_prune) and listed as open finding D14b; "
+    "that no handler prunes is the generated obligation no_handler_prunes (csrf_reuse_after_expiry_prune shows what "
+    "a pruning handler would allow)",
+    "the controlled clock drives datetime.datetime.now, time.time and the `datetime` name imported by "
+    "models/token.py; JWT libraries keep the real clock (token lifetimes are not part of the CSRF protocol)",
     "csrf_service_bound / csrf_cookie_bound: default configuration STRICT_CSRF_ORIGIN off; the strict-origin "
     "form keeps the same-origin side condition explicit (csrf_bound_partial)",
     "the async view inspect-media POST cannot run in this sandbox (asgiref missing): its 'body entered' "
@@ -434,8 +440,39 @@ def spell(tok: str, how: str, r: int) -> str:
     return "".join(out)
 
 
+# seconds … hours … days: below, at and across the 20-minute replay-record lifetime (1200 s), the access
+# token lifetime (2 h) and the refresh token lifetime (7 d)
+CLOCK_JUMPS = [1, 59, 600, 1199, 1200, 1201, 1260, 3600, 7199, 7201, 86400, 7 * 86400 + 1]
+OTHER_OPS = ["login", "login", "logout", "refresh", "refresh-own"]
+
+
+def scripted_csrf_seqs(services):
+    """systematic part of the csrf_seq inputs: use (or fail) a token, let time pass, let another user do
+    something, replay the token (same and other spelling)"""
+    out = []
+    cookie = "ScriptedCookie0123456789abcdefghijklmnopqrs"
+    origins = ["http://localhost", "https://dash.example", "http://evil.example"]
+    svc = "streams" if "streams" in services else services[0]
+    for jump in [0, 600, 1199, 1201, 7201, 90000]:
+        for other in [None, ("login", "user"), ("login", "media"), ("login", "admin"), ("logout", "media"),
+                      ("refresh", "user"), ("refresh-own", "media")]:
+            for first in ["use", "tamper-sig"]:
+                ops = [("i", svc, cookie, origins[0]), ("c", first, 0, 0)]
+                if jump:
+                    ops.append(("t", jump))
+                if other:
+                    ops.append(("o",) + other)
+                ops += [("c", "reuse", 0, 0), ("c", "respell", 0, 12345)]
+                if first != "use":
+                    ops.append(("c", "use", 0, 0))
+                out.append((False, ops, [cookie], origins))
+    return out
+
+
 def gen_csrf_seq(rng, services, big: bool):
-    """ops: ('i', svc, cookie, origin) | ('c', kind, …) resolved against earlier issues | ('p',)"""
+    """ops: ('i', svc, cookie, origin) | ('c', kind, …) resolved against earlier issues | ('p',) restart |
+    ('x',) prune_database(all_csrf=False) | ('t', seconds) clock jump forward | ('o', what, who) a request of
+    another user (login / logout / refresh / refresh-own of user, media or admin)"""
     strict = rng.random() < 0.35
     cookies = ["".join(rng.choice(_Secrets.ALPH) for _ in range(rng.choice([43, 43, 12, 1]))) for _ in range(3)]
     origins = ["http://localhost", "https://dash.example", "http://evil.example"]
@@ -447,12 +484,18 @@ def gen_csrf_seq(rng, services, big: bool):
         if nissued == 0 or k < 0.25:
             ops.append(("i", rng.choice(services), rng.choice(cookies), rng.choice(origins[:2])))
             nissued += 1
+        elif k < 0.12 + 0.25:
+            ops.append(("t", rng.choice(CLOCK_JUMPS)))
+        elif k < 0.20 + 0.25:
+            ops.append(("o", rng.choice(OTHER_OPS), rng.choice(["user", "media", "admin"])))
         elif k < 0.93:
-            kind = rng.choice(["use", "use", "use", "reuse", "cross-service", "cross-cookie", "tamper-salt",
+            kind = rng.choice(["use", "use", "use", "reuse", "reuse", "cross-service", "cross-cookie", "tamper-salt",
                                "tamper-sig", "truncate", "extend", "swap", "no-cookie", "empty-cookie",
                                "cross-origin", "bogus-service", "respell", "respell", "respell"])
             ops.append(("c", kind, rng.randrange(nissued), rng.randrange(1 << 30)))
-        elif big or k < 0.96:
+        elif k < 0.95:
+            ops.append(("x",))
+        elif big or k < 0.97:
             ops.append(("p",))
         else:
             ops.append(("c", "use", rng.randrange(nissued), rng.randrange(1 << 30)))
@@ -472,13 +515,51 @@ def run_csrf_seq(w, rng_salt, strict, ops, cookies, origins, services, in_h_only
     issued = []          # (token, svc, cookie, origin)
     outs, parts, fails, concrete = [], [], [], []
     accepted = set()     # since the last prune
-    last_used: dict[int, tuple] = {}
+    import c15_world
+    clients: dict[str, object] = {}
+    refresh: dict[str, str] = {}
+    offset = 0
     try:
         with app.app_context():
             models.Token.prune_database(all_csrf=True, session=models.db.session)
-        with mock.patch.object(csrf_mod, "secrets", _Secrets(rng_salt)):
+        with c15_world.controlled_clock() as clock, mock.patch.object(csrf_mod, "secrets", _Secrets(rng_salt)):
             for op in ops:
-                if op[0] == "i":
+                if op[0] == "t":
+                    offset += op[1]
+                    clock.at(offset)
+                    outs.append("tick")
+                    parts.append(f"t:{offset}")
+                    concrete.append({"op": "clock", "advance_seconds": op[1], "seconds_since_start": offset})
+                elif op[0] == "o":
+                    _, what, who = op
+                    status = None
+                    if what == "login":
+                        cl = app.test_client()
+                        rr = w.a.login(cl, c15_world.CREDS[who])
+                        status = rr.status_code
+                        if rr.status_code == 200 and rr.json.get("success"):
+                            clients[who] = cl
+                            refresh[who] = rr.json["refreshToken"]["jwt"]
+                    elif what == "logout":
+                        status = clients.pop(who, app.test_client()).get("/logout").status_code
+                    elif what == "refresh":
+                        status = app.test_client().get("/api/refresh/access").status_code
+                    else:   # refresh-own
+                        hdr = {"Authorization": f"Bearer {refresh[who]}"} if who in refresh else {}
+                        status = clients.get(who, app.test_client()).get("/api/refresh/access", headers=hdr).status_code
+                    outs.append("request")
+                    parts.append("r")
+                    concrete.append({"op": "other-user-request", "what": what, "who": who, "status": status,
+                                     "seconds_since_start": offset})
+                elif op[0] == "x":
+                    with app.app_context():
+                        models.Token.prune_database(all_csrf=False, session=models.db.session)
+                    if in_h_only:
+                        accepted.clear()
+                    outs.append("prunedExpired")
+                    parts.append("x")
+                    concrete.append({"op": "prune_database(all_csrf=False)", "seconds_since_start": offset})
+                elif op[0] == "i":
                     _, svc, cookie, origin = op
                     with app.test_request_context("/", base_url=origin, headers={"Cookie": f"csrf={cookie}"}):
                         quoted = CsrfProtection.generate_token(svc, cookie)
@@ -494,7 +575,7 @@ def run_csrf_seq(w, rng_salt, strict, ops, cookies, origins, services, in_h_only
                         accepted.clear()
                     outs.append("pruned")
                     parts.append("p")
-                    concrete.append({"op": "prune"})
+                    concrete.append({"op": "prune", "what": "server restart: prune_database(all_csrf=True)"})
                 else:
                     _, kind, idx, r = op
                     tok, svc, cookie, origin = issued[idx]
@@ -557,7 +638,8 @@ def run_csrf_seq(w, rng_salt, strict, ops, cookies, origins, services, in_h_only
                     ckx = "none" if ck is None else hx(ck)
                     parts.append(f"c:{hx(svc)}:{ckx}:{hx(origin)}:{hx(wire)}")
                     concrete.append({"op": "check", "kind": kind, "spelling": how, "service": svc, "cookie": ck,
-                                     "origin": origin, "submitted": wire, "token": tok, "result": res})
+                                     "origin": origin, "submitted": wire, "token": tok, "result": res,
+                                     "seconds_since_start": offset})
                     if res == "accepted":
                         match = [i for i in issued if i[0] == tok]
                         why = None
@@ -568,7 +650,9 @@ def run_csrf_seq(w, rng_salt, strict, ops, cookies, origins, services, in_h_only
                         elif not any(i[1] == svc and i[2] == ck for i in match):
                             why = "a token was accepted with a cookie it was not issued against"
                         elif tok in accepted:
-                            why = "a token was accepted twice"       # per token, whatever the spelling
+                            # per token value, whatever the spelling, whatever time has passed and whoever
+                            # did what in between – within one server run
+                            why = "a token was accepted twice"
                         if why:
                             fails.append({"clause": why, "at": len(outs) - 1})
                         accepted.add(tok)
@@ -594,7 +678,11 @@ def csrf_channel(ctx, w, table) -> Channel:
         "seeded sequences of issue / use / reuse / re-spelled reuse (the same token in another percent-encoding: "
         "decoded, lower-case escapes, partially encoded, over-encoded) / cross-service / cross-cookie / tamper (salt, "
         "signature, truncate, extend, swap signatures) / missing or empty cookie / cross-origin / prune operations, "
-        "every submitted text in a seeded spelling, run on "
+        "every submitted text in a seeded spelling, interleaved with clock jumps (1 s .. 7 d, across the 20-minute "
+        "replay-record lifetime and the JWT lifetimes; the clock also drives models/token.py) and with logins / "
+        "logouts / token refreshes of other accounts over HTTP, plus a scripted grid (use or fail, jump, other "
+        "user's request, replay in two spellings); oracle: a token value is accepted at most once within one "
+        "server run; run on "
         "the real CsrfProtection inside test request contexts and on the Lean state machine; per-operation "
         "results diffed; non-trivial = the sequence contains a use of an issued token plus at least one "
         "adversarial operation; distinct by the full operation list"))
@@ -602,6 +690,8 @@ def csrf_channel(ctx, w, table) -> Channel:
     rng = ctx.rng("csrf_seq")
     n = ctx.scale(400, 6000)
     seqs = []
+    for i, (strict, ops, cookies, origins) in enumerate(scripted_csrf_seqs(services)):
+        seqs.append((f"scripted:{i}", strict, ops, cookies, origins))
     for i in range(n):
         strict, ops, cookies, origins = gen_csrf_seq(rng, services, ctx.thorough)
         seqs.append((f"{ctx.seed}:csrf_salt:{i}", strict, ops, cookies, origins))
@@ -620,7 +710,28 @@ def csrf_channel(ctx, w, table) -> Channel:
         sj = seq_json(name, strict, ops, cookies, origins)
         kinds = {o[1] for o in ops if o[0] == "c"}
         for o in ops:
-            ch.count("op|" + (o[1] if o[0] == "c" else {"i": "issue", "p": "prune"}[o[0]]))
+            if o[0] == "c":
+                ch.count("op|" + o[1])
+            elif o[0] == "t":
+                ch.count("op|clock jump " + ("< 20 min" if o[1] < 1200 else ("20 min .. 2 h" if o[1] <= 7200 else "> 2 h")))
+            elif o[0] == "o":
+                ch.count("op|other user " + o[1])
+            else:
+                ch.count("op|" + {"i": "issue", "p": "restart", "x": "prune expired"}[o[0]])
+        # replays of a consumed token after the record lifetime with another user's request in between
+        seen_use, late = False, False
+        off, used_at, other_after = 0, None, False
+        for o in ops:
+            if o[0] == "t":
+                off += o[1]
+            elif o[0] == "c" and o[1] in ("use", "tamper-sig") and used_at is None:
+                used_at = off
+            elif o[0] == "o" and used_at is not None and off - used_at > 1200:
+                other_after = True
+            elif o[0] == "c" and o[1] in ("reuse", "respell") and other_after:
+                late = True
+        if late:
+            ch.count("scenario|replay after > 20 min with another user's request in between")
         for r in outs:
             if r in ("accepted", "reuse", "badSignature", "noCookie"):
                 ch.count("result|" + r)
@@ -671,25 +782,50 @@ def _http_replay_request(w, route, n, wire):
     raise ValueError(route)
 
 
-def run_http_replay(w, route, svc, first, second, r):
+def run_http_replay(w, route, svc, first, second, r, jump=0, other=None):
+    """state-changing request with a harvested token; `jump` seconds pass; `other` = (what, who): another
+    account logs in / out / refreshes; the same token again (other payload). Observed on the fingerprint."""
+    import c15_world
     w.restore()
     s = w.sessions["media"]
     tok = urllib.parse.unquote(s.csrf[svc])
     w1, w2 = spell(tok, first, r), spell(tok, second, r >> 5)
-    r1 = _http_replay_request(w, route, 0, w1)
-    after1 = (w.db_fingerprint(), w.blob_listing())
-    changed1 = bool(w.changes())
-    r2 = _http_replay_request(w, route, 1, w2)
-    changed2 = (w.db_fingerprint(), w.blob_listing()) != after1
+    steps = []
+    with c15_world.controlled_clock() as clock:
+        r1 = _http_replay_request(w, route, 0, w1)
+        after1 = (w.db_fingerprint(), w.blob_listing())
+        changed1 = bool(w.changes())
+        steps.append(f"+0 s: {route} as media with its '{svc}' token ({first} spelling) -> {r1.status_code}")
+        if jump:
+            clock.at(jump)
+        if other:
+            what, who = other
+            cl = w.app.test_client()
+            if what == "login":
+                st = w.a.login(cl, c15_world.CREDS[who]).status_code
+            elif what == "logout":
+                w.a.login(cl, c15_world.CREDS[who])
+                st = cl.get("/logout").status_code
+            else:
+                st = cl.get("/api/refresh/access").status_code
+            steps.append(f"+{jump} s: {what} of '{who}' -> {st}")
+            # a login legitimately writes Token rows and last_login only (both outside the fingerprint)
+            after1 = (w.db_fingerprint(), w.blob_listing())
+        r2 = _http_replay_request(w, route, 1, w2)
+        steps.append(f"+{jump} s: {route} as media with the SAME token ({second} spelling), other payload -> {r2.status_code}")
+        changed2 = (w.db_fingerprint(), w.blob_listing()) != after1
     obs = ["accepted" if changed1 else "refused", "accepted" if changed2 else "refused"]
-    line = (f"csrf_seq 0 i:{hx(svc)}:{hx(s.csrf_cookie)}:{hx('http://localhost')}:{hx(tok[:8])}:{hx(tok[8:])};"
-            f"c:{hx(svc)}:{hx(s.csrf_cookie)}:{hx('http://localhost')}:{hx(w1)};"
-            f"c:{hx(svc)}:{hx(s.csrf_cookie)}:{hx('http://localhost')}:{hx(w2)}")
+    ck = s.csrf_cookie
+    line = (f"csrf_seq 0 i:{hx(svc)}:{hx(ck)}:{hx('http://localhost')}:{hx(tok[:8])}:{hx(tok[8:])};"
+            f"c:{hx(svc)}:{hx(ck)}:{hx('http://localhost')}:{hx(w1)};"
+            + (f"t:{jump};" if jump else "") + ("r;" if other else "") +
+            f"c:{hx(svc)}:{hx(ck)}:{hx('http://localhost')}:{hx(w2)}")
     fail = None
     if changed1 and changed2:
         fail = {"channel": "csrf_http", "clause": "a token was accepted twice",
-                "http_replay": {"route": route, "service": svc, "first": first, "second": second, "r": r},
-                "submitted": [w1, w2], "status": [r1.status_code, r2.status_code]}
+                "http_replay": {"route": route, "service": svc, "first": first, "second": second, "r": r,
+                                "jump": jump, "other": list(other) if other else None},
+                "sequence": steps, "submitted": [w1, w2], "status": [r1.status_code, r2.status_code]}
     return line, obs, fail, [r1.status_code, r2.status_code]
 
 
@@ -697,8 +833,10 @@ def csrf_http_channel(ctx, w, table) -> Channel:
     ch = Channel("csrf_http", rule=(
         "state-changing requests of the media role sent twice with the same harvested CSRF token, the two "
         "submissions in every ordered pair of spellings (quote/decoded/lower/partial/over, including equal "
-        "ones), payloads different so that a second acceptance shows in the fingerprint; compared with the "
-        "Lean state machine (accepted;reuse); non-trivial = the two spellings differ"))
+        "ones), and with 10 min / 20 min + 1 s / 2 h + 1 s of controlled clock and a login / logout / token refresh "
+        "of another session between use and replay; payloads different so that a second acceptance shows in the "
+        "database fingerprint; compared with the Lean state machine (accepted;reuse); non-trivial = the two "
+        "spellings differ or time / another request lies in between"))
     rng = ctx.rng("csrf_http")
     present = {(r["route"], r["method"]) for r in table["rows"]}
     cases = []
@@ -707,35 +845,45 @@ def csrf_http_channel(ctx, w, table) -> Channel:
             continue
         for a in SPELLINGS:
             for b in SPELLINGS:
-                cases.append((route, svc, a, b, rng.randrange(1 << 30)))
+                cases.append((route, svc, a, b, rng.randrange(1 << 30), 0, None))
+        # time and other users between use and replay
+        for jump in (600, 1201, 7201):
+            for other in (None, ("login", "user"), ("login", "media"), ("logout", "admin"), ("refresh", "user")):
+                for b in ("quote", "decoded"):
+                    cases.append((route, svc, "quote", b, rng.randrange(1 << 30), jump, other))
     lines, res = [], []
-    for route, svc, a, b, r in cases:
+    for route, svc, a, b, r, jump, other in cases:
         try:
-            line, obs, fail, status = run_http_replay(w, route, svc, a, b, r)
+            line, obs, fail, status = run_http_replay(w, route, svc, a, b, r, jump, other)
         except Exception as e:    # noqa: BLE001
-            ch.errors.append(f"{route} {a}->{b}: {type(e).__name__}: {e}")
+            ch.errors.append(f"{route} {a}->{b} +{jump}s {other}: {type(e).__name__}: {e}")
             continue
         lines.append(line)
-        res.append((route, svc, a, b, r, obs, fail, status))
+        res.append((route, svc, a, b, r, jump, other, obs, fail, status))
     w.restore()
     try:
         model = common.run_driver(lines)
     except Exception as e:
         ch.errors.append(f"driver: {e}")
         model = ["driver-error"] * len(lines)
-    for (route, svc, a, b, r, obs, fail, status), mo in zip(res, model):
+    for (route, svc, a, b, r, jump, other, obs, fail, status), mo in zip(res, model):
         ch.evaluations += 1
         ch.count(f"{route}|{'same' if a == b else 'different'}-spelling|{obs[0]},{obs[1]}")
-        if a != b:
-            ch.nontrivial.add((route, a, b))
+        ch.count("between use and replay|" + (f"+{jump} s" if jump else "immediately")
+                 + (f", {other[0]} of another session" if other else ""))
+        if a != b or jump or other:
+            ch.nontrivial.add((route, a, b, jump, other))
         if fail:
             ch.oracle_failures.append(fail)
         if mo != "driver-error":
-            want = ["accepted" if x == "accepted" else "refused" for x in mo.split(";")[1:]]
+            want = ["accepted" if x == "accepted" else "refused" for x in mo.split(";")[1:]
+                    if x not in ("tick", "request")]
             if want != obs:
-                ch.disagreements.append({"http_replay": {"route": route, "service": svc, "first": a, "second": b, "r": r},
+                ch.disagreements.append({"http_replay": {"route": route, "service": svc, "first": a, "second": b,
+                                                         "r": r, "jump": jump, "other": list(other) if other else None},
                                          "model": want, "impl": obs, "status": status})
-        ch.sample({"route": route, "first": a, "second": b, "observed": obs, "status": status}, limit=3)
+        ch.sample({"route": route, "first": a, "second": b, "jump": jump, "other": other, "observed": obs,
+                   "status": status}, limit=3)
     return ch
 
 
@@ -767,6 +915,7 @@ def channels(ctx):
     yield xcheck_channel(w, table)
     yield authz_channel(ctx, w, table)
     yield csrf_channel(ctx, w, table)
+    w.restore()
     yield csrf_http_channel(ctx, w, table)
 
 
@@ -839,6 +988,13 @@ def search(ctx, disagreements):
             if fails:
                 return {"channel": "csrf_seq", "clause": fails[0]["clause"], "sequence": s,
                         "trace": concrete[:fails[0]["at"] + 1][-6:]}
+    for i, (strict, ops, cookies, origins) in enumerate(scripted_csrf_seqs(services)):
+        name = f"scripted:{i}"
+        _, _, fails, concrete = run_csrf_seq(w, common.rng_for(0, name), strict, ops, cookies, origins, services)
+        if fails:
+            return {"channel": "csrf_seq", "clause": fails[0]["clause"],
+                    "sequence": seq_json(name, strict, ops, cookies, origins),
+                    "trace": concrete[:fails[0]["at"] + 1][-6:]}
     for i in range(3000):
         strict, ops, cookies, origins = gen_csrf_seq(rng, services, True)
         name = f"{ctx.seed}:search_salt:{i}"
@@ -867,9 +1023,12 @@ def replay(ctx, payload):
     if "http_replay" in f:
         w = c15_world.world()
         h = f["http_replay"]
-        _, obs, fail, status = run_http_replay(w, h["route"], h["service"], h["first"], h["second"], h["r"])
+        other = tuple(h["other"]) if h.get("other") else None
+        _, obs, fail, status = run_http_replay(w, h["route"], h["service"], h["first"], h["second"], h["r"],
+                                               h.get("jump", 0), other)
         w.restore()
-        return {"fails": bool(fail), "observed": obs, "status": status, "http_replay": h}
+        return {"fails": bool(fail), "observed": obs, "status": status, "http_replay": h,
+                "sequence": fail["sequence"] if fail else None}
     if "sequence" in f:
         w = c15_world.world()
         s = f["sequence"]
